@@ -2,8 +2,10 @@ package exec
 
 import (
 	"encoding/json"
+	"errors"
 	"fmt"
 	"math"
+	"strconv"
 
 	"github.com/theory/sqljson/path/ast"
 )
@@ -76,7 +78,8 @@ func getJSONInt32(val any, op string) (int, error) {
 	case json.Number:
 		if integer, err := val.Int64(); err == nil {
 			num = integer
-		} else if float, err := val.Float64(); err == nil {
+		} else if float, err := val.Float64(); err == nil || errors.Is(err, strconv.ErrRange) {
+			// A number outside the range of float64 parses as ±Inf.
 			if math.IsInf(float, 0) || math.IsNaN(float) {
 				return 0, fmt.Errorf(
 					"%w: NaN or Infinity is not allowed for jsonpath %v",
